@@ -172,14 +172,16 @@ AffOps ==
     \cup {[op |-> o, f |-> f, g |-> g] : o \in {"add", "sub", "mul"}, f \in F22 \cup {Z22}, g \in F22}
     \cup {[op |-> o, f |-> pr[1], g |-> pr[2]] : o \in {"div", "rem"}, pr \in DivPairs}
     \cup {[op |-> o, f |-> f] : o \in {"neg", "row_iter", "remove_zero_rows", "remove_zero_columns", "from_row_iter", "view_owned", "as_polytope", "as_function"}, f \in AllF}
-    \cup {[op |-> "apply", f |-> f, den |-> 2] : f \in AllF}
+    \cup {[op |-> o, f |-> f, den |-> 2] : o \in {"apply", "apply_transpose"}, f \in AllF}
+    \cup {[op |-> "views", f |-> f] : f \in AllF}
+    \cup {[op |-> "reset_row", f |-> f, row |-> r] : f \in AllF, r \in 0..2}
     \cup {[op |-> "row", f |-> f, row |-> r] : f \in AllF, r \in 0..2}
     \cup {[op |-> "remove_rows", f |-> f, rows |-> rs] : f \in F32, rs \in {<<>>, <<0>>, <<1, 2>>, <<0, 1, 2>>}}
     \cup {[op |-> "convert_to", f |-> f, repr |-> r] : f \in F22, r \in {"MatrixLeqBias", "MatrixBiasLeqZero", "MatrixGeqBias", "MatrixBiasGeqZero"}}
 ValidAffOp(o) ==
     /\ (o.op = "compose" => o.f.n = Len(o.g.m))
     /\ (o.op = "stack" => o.f.n = o.g.n)
-    /\ (o.op = "row" => o.row < Len(o.f.m))
+    /\ (o.op \in {"row", "reset_row"} => o.row < Len(o.f.m))
 
 \* ---------------------------------------------------------------- LP layer (C10)
 LRows == {<<<<a, b>>, c>> : a \in {-1, 0, 1}, b \in {-1, 0, 1}, c \in {-1, 0, 1}}
